@@ -18,6 +18,19 @@ def endsDefaultP : List Pat → Bool
   | [.default] => true
   | _ :: rest => endsDefaultP rest
 
+def hasNonePat : Pat → Bool
+  | .values vs => vs.any (fun v => match v with | .none => true | _ => false)
+  | .default => false
+def hasBindPat (w : WrapType) : Pat → Bool
+  | .values vs => vs.any (fun v => match bindingOf v with | some (w', _) => w' == w | none => false)
+  | .default => false
+
+/-- a syntactic guarantee that some arm is selected: a trailing default arm, or `None` and
+`Some(x)` arms, or `Ok(x)` and `Err(y)` arms -/
+def patsTotal (pats : List Pat) : Bool :=
+  endsDefaultP pats || (pats.any hasNonePat && pats.any (hasBindPat .Some)) ||
+    (pats.any (hasBindPat .Ok) && pats.any (hasBindPat .Err))
+
 mutual
 def fragE : Expr → Bool
   | .unit | .int _ | .str _ | .bool _ | .none | .todo | .var _ | .enumRef _ _ _ => true
@@ -31,7 +44,7 @@ def fragE : Expr → Bool
   | .struct _ fields srcs => srcs.isEmpty && fragFields fields
   | .dot e _ => fragE e
   | .block ss e => fragSs ss && fragE e
-  | .mtch scrut arms => fragE scrut && fragArmsE arms && endsDefaultE arms
+  | .mtch scrut arms => fragE scrut && fragArmsE arms && patsTotal (patsOfE arms)
   | .cast _ _ | .substruct _ _ => false
 def fragPat : Pat → Bool
   | .default => true
@@ -54,7 +67,7 @@ def fragS : Stmt → Bool
   | .ifS brs _ els => fragBrs brs && fragSs els
   | .ret e => fragE e
   | .dassert e => fragE e
-  | .mtch scrut arms => fragE scrut && fragArmsS arms && endsDefaultS arms
+  | .mtch scrut arms => fragE scrut && fragArmsS arms && patsTotal (patsOfS arms)
 def fragSs : List Stmt → Bool
   | [] => true
   | s :: ss => fragS s && fragSs ss
@@ -118,6 +131,12 @@ def BindOk (v : Val) : Pat → Prop
   | .default => True
   | .values vs => ∀ w x, firstBinding vs = some (w, x) → isWrap w v = true
 
+/-- arm `pat` is certainly selected for `v` (if no earlier arm is) -/
+def ArmHits (v : Val) : Pat → Prop
+  | .default => True
+  | .values vs => (∃ pe w x, pe ∈ vs ∧ bindingOf pe = some (w, x) ∧ isWrap w v = true) ∨ (Expr.none ∈ vs ∧ v = .none)
+def Total (v : Val) (pats : List Pat) : Prop := ∃ pat ∈ pats, ArmHits v pat
+
 /-- invariant of the struct under construction: conforming values inside, and every field that is
 set and declared fits its declared type -/
 def FldInv (p : Program) (d : List (Nat × Ty)) (afs : List (Nat × Val)) : Prop :=
@@ -146,7 +165,7 @@ structure Snd (cx : LCtx) (p : Program) (n : Nat) : Prop where
       (evalFields p n env log d fs' (.struct name afs))
   mv : ∀ rt sc st vs stF vs' bs env log v, fragArgs vs = true → lowerPatValsE (cx.withRet rt) sc st vs = some (stF, vs', bs) →
     rt.neverFree = true → EnvOk p sc env → ROk (fun (_ : Bool) => True) (FitV p rt) (matchVals p n env log v vs')
-  sel : ∀ rt sc st pats pats' env log v k, PatsLow (cx.withRet rt) sc st pats pats' → endsDefaultP pats = true →
+  sel : ∀ rt sc st pats pats' env log v k, PatsLow (cx.withRet rt) sc st pats pats' → Total v pats' →
     rt.neverFree = true → EnvOk p sc env →
     ROk (fun j => ∃ i pat, j = k + i ∧ pats'[i]? = some pat ∧ BindOk v pat) (FitV p rt) (selectArm p n env log v pats' k)
   call : ∀ f fd vs log, p.funDef f = some fd → FunOk cx fd → ArgsFit p vs (fd.params.map (·.2)) →
